@@ -288,10 +288,15 @@ struct cplog {
     size_t n;
 };
 static struct cplog s_log[2];
+static struct cplog *s_cur_log; /* where the callback logs when it was installed with user_data == NULL */
+static long s_fail_at = -1;     /* the callback's call number (from 0) that returns an error; -1 = never */
 static int s_on_cp(uint32_t cp, void *ud) {
-    struct cplog *l = ud;
-    HC_CHECK(l->n < MAXCP);
+    struct cplog *l = ud ? ud : s_cur_log;
+    HC_CHECK(l && l->n < MAXCP);
     l->cp[l->n++] = cp;
+    if (s_fail_at >= 0 && (long)l->n - 1 == s_fail_at) {
+        return aws_raise_error(AWS_ERROR_INVALID_ARGUMENT);
+    }
     return AWS_OP_SUCCESS;
 }
 static void s_put_cps(const struct cplog *l) {
@@ -334,8 +339,10 @@ static void s_run_chunks(
     size_t nchunks,
     char *err,
     size_t errsz) {
-    struct aws_utf8_decoder_options opt = {nocb_kind == 0 ? s_on_cp : NULL, log};
+    bool cb = nocb_kind == 0 || nocb_kind == 3; /* 3 = callback installed with user_data == NULL (it logs through s_cur_log) */
+    struct aws_utf8_decoder_options opt = {cb ? s_on_cp : NULL, nocb_kind == 3 ? NULL : log};
     log->n = 0;
+    s_cur_log = log;
     struct aws_utf8_decoder *d = B->u8_new(hc_allocator(), nocb_kind == 1 ? NULL : &opt);
     int rc = AWS_OP_SUCCESS;
     aws_reset_error();
@@ -353,26 +360,32 @@ static void s_run_chunks(
 }
 
 static void s_one_shot(const struct build *B, int nocb_kind, struct cplog *log, const uint8_t *x, size_t len, char *err, size_t errsz) {
-    struct aws_utf8_decoder_options opt = {nocb_kind == 0 ? s_on_cp : NULL, log};
+    bool cb = nocb_kind == 0 || nocb_kind == 3;
+    struct aws_utf8_decoder_options opt = {cb ? s_on_cp : NULL, nocb_kind == 3 ? NULL : log};
     uint8_t *c = s_dup(x, len);
     log->n = 0;
+    s_cur_log = log;
     aws_reset_error();
     int rc = B->decode_utf8(aws_byte_cursor_from_array(c, len), nocb_kind == 1 ? NULL : &opt);
     snprintf(err, errsz, "%s", hc_err(rc));
     free(c);
 }
 
-/* all chunkings of x (every composition, plus one run with an empty chunk around every byte), both modes */
+/* all chunkings of x (every composition, plus one run with an empty chunk around every byte), in four modes:
+ * 0 callback (user_data set / NULL alternating), 1 no callback, 2 / 3 callback failing on its 1st / 2nd call */
 static void s_u8all(const uint8_t *x, size_t len) {
-    static struct cplog ref[2], got;
-    char err1[2][64], errn[2][64];
-    int dep[2][2] = {{0, 0}, {0, 0}};
+    static struct cplog ref[2][4], got;
+    char err1[2][4][64];
+    int dep[2][4];
     size_t nmask = len ? ((size_t)1 << (len - 1)) : 1;
+    memset(dep, 0, sizeof(dep));
     for (int b = 0; b < 2; ++b) {
         const struct build *B = &s_builds[b];
         char mon[1024] = "";
-        s_one_shot(B, 0, &ref[b], x, len, err1[b], sizeof(err1[b]));
-        s_one_shot(B, 2, &got, x, len, errn[b], sizeof(errn[b]));
+        for (int mode = 0; mode < 4; ++mode) {
+            s_fail_at = mode >= 2 ? mode - 2 : -1;
+            s_one_shot(B, mode == 1 ? 2 : (mode == 0 ? 3 : 0), &ref[b][mode], x, len, err1[b][mode], sizeof(err1[b][mode]));
+        }
         for (size_t mask = 0; mask <= nmask; ++mask) {
             size_t cut[40], n = 0;
             cut[n++] = 0;
@@ -390,13 +403,14 @@ static void s_u8all(const uint8_t *x, size_t len) {
                 }
                 cut[n++] = len;
             }
-            for (int mode = 0; mode < 2; ++mode) {
+            for (int mode = 0; mode < 4; ++mode) {
                 char err[64];
-                int kind = mode == 0 ? 0 : 1 + (int)(mask & 1);
+                int kind = mode == 1 ? 1 + (int)(mask & 1) : ((mask >> 1 & 1) ? 3 : 0);
+                s_fail_at = mode >= 2 ? mode - 2 : -1;
                 s_run_chunks(B, kind, &got, x, cut, n - 1, err, sizeof(err));
-                bool differs = mode == 0 ? (strcmp(err, err1[b]) || got.n != ref[b].n ||
-                                            memcmp(got.cp, ref[b].cp, got.n * sizeof(uint32_t)))
-                                         : (strcmp(err, errn[b]) || strcmp(err, err1[b]) || got.n != 0);
+                bool differs = strcmp(err, err1[b][mode]) || got.n != ref[b][mode].n ||
+                               memcmp(got.cp, ref[b][mode].cp, got.n * sizeof(uint32_t)) ||
+                               (mode == 1 && (strcmp(err, err1[b][0]) || got.n != 0));
                 if (differs) {
                     dep[b][mode] = 1;
                     if (!mon[0]) {
@@ -412,22 +426,32 @@ static void s_u8all(const uint8_t *x, size_t len) {
                                 o += (size_t)snprintf(mon + o, sizeof(mon) - o, "%02x", x[i]);
                             }
                         }
-                        snprintf(mon + o, sizeof(mon) - o, " nocb=%d rc=%s reported=%zu but in one piece rc=%s reported=%zu", mode,
-                                 err, got.n, mode == 0 ? err1[b] : errn[b], mode == 0 ? ref[b].n : (size_t)0);
+                        snprintf(mon + o, sizeof(mon) - o, " mode=%s rc=%s reported=%zu but in one piece rc=%s reported=%zu",
+                                 mode == 0 ? "callback" : mode == 1 ? "nocb" : mode == 2 ? "failcb0" : "failcb1", err, got.n,
+                                 err1[b][mode], ref[b][mode].n);
                     }
                 }
             }
         }
-        printf("P u8all %s rc=%s cps=", B->name, err1[b]);
-        s_put_cps(&ref[b]);
+        s_fail_at = -1;
+        printf("P u8all %s rc=%s cps=", B->name, err1[b][0]);
+        s_put_cps(&ref[b][0]);
         printf(" chunkings=%zu chunkdep=%d\n", nmask, dep[b][0]);
-        printf("P u8all %s nocb=1 rc=%s chunkdep=%d\n", B->name, errn[b], dep[b][1]);
+        printf("P u8all %s nocb=1 rc=%s chunkdep=%d\n", B->name, err1[b][1], dep[b][1]);
+        for (int mode = 2; mode < 4; ++mode) {
+            printf("P u8all %s failcb=%d rc=%s cps=", B->name, mode - 2, err1[b][mode]);
+            s_put_cps(&ref[b][mode]);
+            printf(" chunkdep=%d\n", dep[b][mode]);
+        }
         if (mon[0]) {
             printf("%s\n", mon);
         }
     }
-    bool same = !strcmp(err1[0], err1[1]) && !strcmp(errn[0], errn[1]) && ref[0].n == ref[1].n &&
-                !memcmp(ref[0].cp, ref[1].cp, ref[0].n * sizeof(uint32_t)) && dep[0][0] == dep[1][0] && dep[0][1] == dep[1][1];
+    bool same = true;
+    for (int mode = 0; mode < 4; ++mode) {
+        same = same && !strcmp(err1[0][mode], err1[1][mode]) && ref[0][mode].n == ref[1][mode].n &&
+               !memcmp(ref[0][mode].cp, ref[1][mode].cp, ref[0][mode].n * sizeof(uint32_t)) && dep[0][mode] == dep[1][mode];
+    }
     printf("P u8all same=%d\n", same);
 }
 
@@ -502,19 +526,44 @@ int main(void) {
             }
             static struct cplog dummy;
             for (int b = 0; b < 2; ++b) {
-                s_run_chunks(&s_builds[b], 0, &s_log[b], text, cut, (size_t)(n - 1), errs[b], sizeof(errs[b]));
+                s_run_chunks(&s_builds[b], (total & 1) ? 3 : 0, &s_log[b], text, cut, (size_t)(n - 1), errs[b], sizeof(errs[b]));
                 s_put_u8(op, s_builds[b].name, errs[b], &s_log[b]);
                 s_run_chunks(&s_builds[b], 1 + (n & 1), &dummy, text, cut, (size_t)(n - 1), errn[b], sizeof(errn[b]));
                 s_put_u8_nocb(op, s_builds[b].name, errn[b]);
             }
             printf("P %s same=%d\n", op, !strcmp(errs[0], errs[1]) && !strcmp(errn[0], errn[1]) && s_log_same());
+        } else if (n >= 2 && !strcmp(op, "u8f")) {
+            /* callback installed and failing on its k-th call (from 0) */
+            char errs[2][64];
+            static uint8_t text[HC_MAX_LINE / 2];
+            static size_t cut[HC_MAX_TOKS + 1];
+            size_t total = 0;
+            long k = atol(t[1]);
+            cut[0] = 0;
+            for (int j = 2; j < n; ++j) {
+                size_t len;
+                uint8_t *c = hc_hex_decode(t[j], &len);
+                memcpy(text + total, c, len);
+                total += len;
+                cut[j - 1] = total;
+                free(c);
+            }
+            for (int b = 0; b < 2; ++b) {
+                s_fail_at = k;
+                s_run_chunks(&s_builds[b], (n & 1) ? 3 : 0, &s_log[b], text, cut, (size_t)(n - 2), errs[b], sizeof(errs[b]));
+                s_fail_at = -1;
+                printf("P u8f %s failcb=%ld rc=%s cps=", s_builds[b].name, k, errs[b]);
+                s_put_cps(&s_log[b]);
+                printf("\n");
+            }
+            printf("P %s same=%d\n", op, !strcmp(errs[0], errs[1]) && s_log_same());
         } else if (n == 2 && !strcmp(op, "u8one")) {
             char errs[2][64], errn[2][64];
             static struct cplog dummy;
             size_t len;
             uint8_t *c = hc_hex_decode(t[1], &len);
             for (int b = 0; b < 2; ++b) {
-                s_one_shot(&s_builds[b], 0, &s_log[b], c, len, errs[b], sizeof(errs[b]));
+                s_one_shot(&s_builds[b], (len & 2) ? 3 : 0, &s_log[b], c, len, errs[b], sizeof(errs[b]));
                 s_put_u8(op, s_builds[b].name, errs[b], &s_log[b]);
                 s_one_shot(&s_builds[b], 1 + (int)(len & 1), &dummy, c, len, errn[b], sizeof(errn[b]));
                 s_put_u8_nocb(op, s_builds[b].name, errn[b]);
